@@ -176,9 +176,11 @@ class C12(Check):
                     return norm(a0)
             return None
 
-        defs12 = single_defs(fn)
-        src_v = symbols_of(vs[0].value) if vs else None
-        if src_v is not None and norm(expand_locals(ast.parse(src_v, mode="eval").body, defs12)) == "model.get_initial_conditions()" and ic_decl:
+        # the value of `variables` with every local substituted (path summary; the function is straight-line up to its loops)
+        ends12 = [st for st, _ in SymInterp().run_function(fn, Sym()).returns]
+        vtxt = next((st.get("variables") for st in ends12 if st.get("variables")), None)
+        src_v = symbols_of(ast.parse(vtxt, mode="eval").body) if vtxt else None
+        if src_v == "model.get_initial_conditions()" and ic_decl:
             self.holds("Y4", SYM, q, "variable-symbols-in-declaration-order", vs[0], "variable symbols keyed like get_initial_conditions() (declaration order)")
         else:
             self.violated("Y4", SYM, q, "variable-symbols-in-declaration-order", vs[0] if vs else fn, "variable symbols are not created in declaration order")
